@@ -85,4 +85,18 @@ def desigStep (d : Desig) : Op → Out → Desig
   | .inEnd ch, .to _ => d.clear ch
   | _, _ => d
 
+/-- source facts (regenerated from connection/mod.rs on every run): `allocate_session` takes the slab's
+    vacant entry and stores the relay in it; `deallocate_session` removes the slot; the peer's begin is
+    looked up in the slab by its `remote-channel` and stored under the peer's channel; the peer's end
+    REMOVES that entry; every other frame is looked up under the peer's channel -/
+def sourceShape : Bool :=
+  open Amqp.Gen.RoutingK in
+  decide (allocate_session_order.idx_vacant_entry < allocate_session_order.idx_entry___insert) &&
+  decide (allocate_session_order.idx_entry___insert < 1000) &&
+  decide (deallocate_session_order.idx_session_by_outgoing_channel___remove < 1000) &&
+  decide (on_incoming_begin_order.idx_session_by_outgoing_channel___get < on_incoming_begin_order.idx_session_by_incoming_channel___insert) &&
+  decide (on_incoming_begin_order.idx_session_by_incoming_channel___insert < 1000) &&
+  decide (on_incoming_end_order.idx_session_by_incoming_channel___remove < 1000) &&
+  decide (session_lookup_order.idx_session_by_incoming_channel___get < 1000)
+
 end Amqp.ChanRouting
